@@ -223,6 +223,7 @@ pub fn run_thr(trace: &Trace) -> (RunReport, Vec<u8>) {
     let clock = VerifClock::new();
     let base = clock.now();
     let shared = Arc::new(Shared::default());
+    shared.wlock_sp.store(cfg.wlock_sp, std::sync::atomic::Ordering::SeqCst);
     let main_hooks = SimHooks::new(usize::MAX, Arc::clone(&shared), None);
     mini_moka::verif::install(Some(main_hooks.clone() as Arc<dyn mini_moka::verif::Hooks>));
     let cache = build_sync(cfg, &reg, &clock);
@@ -1363,6 +1364,7 @@ fn thr_stream(pop: &str) -> Option<u64> {
         "thr-iter-mixed" => 29,
         "thr-inval" => 30,
         "thr-long" => 31,
+        "thr-wlock" => 32,
         _ => return None,
     })
 }
@@ -1437,6 +1439,22 @@ pub fn generate(pop: &str, seed: u64, run: u64) -> Option<Trace> {
     let stream = thr_stream(pop)?;
     if pop == "thr-sweep" {
         return Some(generate_sweep(seed, run));
+    }
+    if pop == "thr-wlock" {
+        // the programs, configurations and scheduling policies of the other populations,
+        // with threads additionally preempted *inside* inserts, while the shard write lock
+        // is held (Config::wlock_sp)
+        let mut r = Prng::new(mix(seed, stream, run));
+        let base = *r.pick(&["thr-mixed", "thr-mixed", "thr-warm", "thr-warm", "thr-expiry", "thr-inval", "thr-iter-mixed", "thr-long", "thr-strict"]);
+        let mut t = generate(base, r.next_u64(), run)?;
+        t.config.wlock_sp = true;
+        // collisions put different keys into one shard: the lock of a key's shard is then
+        // held while *another* key of that shard is looked up by maintenance
+        if r.chance(1, 2) {
+            t.config.shards = Some(2);
+        }
+        t.origin = Some(Origin { seed, run, population: pop.to_string() });
+        return Some(t);
     }
     let sub = mix(seed, stream, run);
     let mut rng = Prng::new(sub);
